@@ -210,9 +210,9 @@ fn arb_mutant() -> SBoxedStrategy<Vec<u8>> {
 /// a sentence in which one number is replaced by a value that wraps onto it in a narrower integer type (n + 2^8, 2^16, 2^32), or that gets
 /// one character of Unicode / control white space attached to an end (only ASCII white space may be stripped)
 pub fn arb_wrap_or_space() -> SBoxedStrategy<Vec<u8>> {
-    (prop_oneof![arb_sentence(false), arb_sentence(true)], any::<u32>(), 0u8..8, proptest::sample::select(vec!["\u{b}", "\u{85}", "\u{a0}", "\u{2003}", "\u{2028}", "\u{3000}", "\u{1c}", "\u{feff}", "\u{200b}"]), any::<bool>())
+    (prop_oneof![arb_sentence(false), arb_sentence(true)], any::<u32>(), 0u8..11, proptest::sample::select(vec!["\u{b}", "\u{85}", "\u{a0}", "\u{2003}", "\u{2028}", "\u{3000}", "\u{1c}", "\u{feff}", "\u{200b}"]), any::<bool>())
         .prop_map(|(s, pos, kind, ws, front)| {
-            if kind < 5 {
+            if kind < 8 {
                 // find the digit runs
                 let b = s.as_bytes();
                 let mut runs = vec![];
@@ -233,7 +233,7 @@ pub fn arb_wrap_or_space() -> SBoxedStrategy<Vec<u8>> {
                 }
                 let (a, e) = runs[idx(pos, runs.len())];
                 let v: u128 = s[a..e].parse().unwrap_or(0);
-                let add: u128 = [256, 65_536, 4_294_967_296, 600_000, 2_147_000_000][kind as usize];
+                let add: u128 = [256, 65_536, 4_294_967_296, 600_000, 2_147_000_000, 268_435_456, 536_870_912, 1_073_741_824][kind as usize];
                 format!("{}{}{}", &s[..a], v + add, &s[e..]).into_bytes()
             } else if front {
                 format!("{ws}{s}").into_bytes()
@@ -269,7 +269,7 @@ pub fn run(ctx: &Ctx) -> Outcome {
         }
     }
     // fixed regression strings (IANA footers and the crate's documented examples)
-    let fixed = ["UTC0", "EST5EDT,M3.2.0,M11.1.0", "CET-1CEST,M3.5.0,M10.5.0/3", "<-03>3<-02>,M3.5.0/-2,M10.5.0/-1", "IST-2IDT,M3.4.4/26,M10.5.0", "EST5EDT,0/0,J365/25", "HST10", "<+0330>-3:30", "AAA-0:30", "NZST-12NZDT,M9.5.0,M4.1.0/3", "WGT3WGST,M3.5.0/-2,M10.5.0/-1", "AAA0BBB", "AAA0BBB1", "AAA0BBB,J1", "AAA", "AAA24:59:59", "AAA25", " AAA0 ", "AAA0BBB,M259.1.0,J300", "AAA0BBB,J65537,J300", "AAA0BBB,65536,J300", "AAA0BBB,M3.257.0,J300", "AAA0BBB,M3.1.256,J300", "EST5\u{b}", "\u{a0}EST5", "AAA0BBB,J1/24,J300/24:00:00", "AAA256", "AAA0:256", "<EST\0>5", "<\0EST>5", "AAA0BBB,JM3.2.0,M11.1.0", "AAA0BBB,M3.2.0/600000,M11.1.0", "AAA0BBB,M3.2.0/596523:59:59,M11.1.0", "AAA0BBB,M3.2.0/-2147483647,M11.1.0", "AAA0BBB-2,J3/-72,J364/120", "EST+5EDT,M3.2.0/2:00:00,M11.1.0/2:00:00x"];
+    let fixed = ["UTC0", "EST5EDT,M3.2.0,M11.1.0", "CET-1CEST,M3.5.0,M10.5.0/3", "<-03>3<-02>,M3.5.0/-2,M10.5.0/-1", "IST-2IDT,M3.4.4/26,M10.5.0", "EST5EDT,0/0,J365/25", "HST10", "<+0330>-3:30", "AAA-0:30", "NZST-12NZDT,M9.5.0,M4.1.0/3", "WGT3WGST,M3.5.0/-2,M10.5.0/-1", "AAA0BBB", "AAA0BBB1", "AAA0BBB,J1", "AAA", "AAA24:59:59", "AAA25", " AAA0 ", "AAA0BBB,M259.1.0,J300", "AAA0BBB,J65537,J300", "AAA0BBB,65536,J300", "AAA0BBB,M3.257.0,J300", "AAA0BBB,M3.1.256,J300", "EST5\u{b}", "\u{a0}EST5", "AAA0BBB,J1/24,J300/24:00:00", "AAA256", "AAA0:256", "<EST\0>5", "<\0EST>5", "AAA0BBB,JM3.2.0,M11.1.0", "AAA0BBB,M3.2.0/600000,M11.1.0", "AAA0BBB,M3.2.0/268435456,M11.1.0", "AAA0BBB,M3.2.0/268435458,M11.1.0/-1", "AAA0000000003", "AAA3BBB,J0000000060,M0000000010.1.0", "AAA0BBB,M3.2.0/596523:59:59,M11.1.0", "AAA0BBB,M3.2.0/-2147483647,M11.1.0", "AAA0BBB-2,J3/-72,J364/120", "EST+5EDT,M3.2.0/2:00:00,M11.1.0/2:00:00x"];
     let rs = par_shards(1, |_, st| {
         for s in fixed {
             check_enum("str", &StrCase { s: s.as_bytes().to_vec() }, st, |c, st| check_str(c, st, true))?;
